@@ -13,7 +13,7 @@ def main():
     import mininec.mininec  # noqa: F401
     from sim import world as W
     from sim import seams as S
-    se = W.setup_side(spec['side'], spec.get('disk') or {})
+    se = W.setup_side(spec['side'], spec.get('disk') or {}, spec.get('root'))
     pv = W.poison_value(spec['side'])
     if pv is not None:
         S.poison(S.poison_sizes(spec.get('npulses', 10), [40, 370]), pv)
